@@ -88,7 +88,7 @@ def gen_recipe(rng, target, kinds, named, alt=False, dct=None, size=None, must_u
         args.append([ARGNAMES[i], rng.choice(T[c])])
         cls.append(c)
     steps = []
-    ntarget = size if size is not None else rng.choice([2, 4, 6, 9, 14, 22])
+    ntarget = size if size is not None else rng.choice([2, 4, 6, 9, 14, 22] if target == "stablehlo" else [2, 4, 6, 9, 13, 18])
     used_names = set(a[0] for a in args)
     uses = [0] * len(cls)
 
